@@ -43,7 +43,9 @@ def run_cases(cases, timeout=3000):
             head, outhex = m.split("\t")
             _, cnt, doc = head.split(" ", 2)
             d["model"] = "ok"
+            cnt, wfc, size = (cnt.split(":") + ["1", "0"])[:3]
             d["model_doc"], d["model_out"], d["model_cnt"] = doc, unhex(outhex), int(cnt)
+            d["model_wfc"], d["model_size"] = (wfc == "1"), int(size)
         else:
             d["model"] = m
         d["class_eq"] = (d["impl"] == d["model"].split()[0])
